@@ -138,7 +138,10 @@ func Sleep(d time.Duration) {
 		time.Sleep(d)
 		return
 	}
-	Yield("sleep")
+	t := s.me()
+	t.pending = &Op{kind: opSleep, obj: "TIMER", desc: d.String()}
+	s.reschedule(t, false)
+	t.log("sleep")
 	s.now += int64(d / time.Millisecond)
 }
 
